@@ -61,6 +61,19 @@ TagLine(l) == LET t == LTrim(l) IN
    IN IF faulty # {} THEN [ok |-> FALSE, exc |-> "tagws", col |-> its[CHOOSE j \in faulty : \A m \in faulty : j <= m].col]
       ELSE Tok("TagLine", Indent(l) + 1, <<>>, "", <<>>, 1, its)
 
+\* The recorded deviation of the implementation (known finding C04/tag-blank-after-at), written down so that on the inputs of that class the
+\* implementation is still held to SOMETHING: it trims both sides of a tag.  Used only to tell the known finding from any other difference.
+RECURSIVE TagItemsAsImplemented(_, _, _)
+TagItemsAsImplemented(items, k, col) == IF k > Len(items) THEN <<>> ELSE
+     << [col |-> col, text |-> <<AT>> \o Trim(items[k])] >> \o TagItemsAsImplemented(items, k + 1, col + Len(items[k]) + 1)
+TagLineAsImplemented(l) == LET t == LTrim(l) IN
+   IF t = <<>> \/ t[1] # AT THEN NoTok ELSE
+   LET u == Trim(CutComment(Trim(t), 1))
+       its == TagItemsAsImplemented(Tail(Split(u, AT)), 1, Indent(l) + 1)
+       faulty == {j \in 1..Len(its) : HasWs(its[j].text)}
+   IN IF faulty # {} THEN [ok |-> FALSE, exc |-> "tagws", col |-> its[CHOOSE j \in faulty : \A m \in faulty : j <= m].col]
+      ELSE Tok("TagLine", Indent(l) + 1, <<>>, "", <<>>, 1, its)
+
 \* ---------------------------------------------------------------- table rows
 Row(l) == LET t == LTrim(l) IN IF t = <<>> \/ t[1] # PIPE THEN NoTok ELSE Tok("TableRow", Indent(l) + 1, <<>>, "", <<>>, 1, CellsOf(l))
 
